@@ -240,7 +240,9 @@ pub fn near_valid(r: &mut Rng) -> (String, &'static str) {
 
 /// Does this opener contribute a parenthesis level (see finding C18-F1: exponential parse time)?
 fn is_paren(open: &str) -> bool {
-    open.starts_with('(')
+    // parenthesised type / or-pattern forms, and the two term forms whose *unclosed* nests back-track
+    // exponentially (`@{ @{ @{ …`, `! [! [! [ …`)
+    open.starts_with('(') || open.starts_with("@{") || open.starts_with("! [")
 }
 
 /// G5 — bracket nesting up to depth 100 (the property's bound), closed, truncated or mismatched.
@@ -293,13 +295,77 @@ pub fn nesting(r: &mut Rng, paren_cap: usize) -> (String, usize) {
     (s, depth)
 }
 
-/// Parenthesised type / or-pattern nesting beyond the hang threshold (finding C18-F1).
+/// Nesting beyond the hang threshold of the four constructs of finding C18-F1.
 pub fn deep_parens(r: &mut Rng) -> String {
     let depth = 30 + r.usize(71);
-    match r.below(4) {
+    match r.below(6) {
         0 => format!("'t = {}'int{}", "(".repeat(depth), ")".repeat(depth)),
         1 => format!("'t = {}'int{}", "(#".repeat(depth), " -> 'int)".repeat(depth)),
         2 => format!("={}x{}", "(".repeat(depth), " | 1)".repeat(depth)),
-        _ => format!("'t = {}'int{}", "('bin | ".repeat(depth), ")".repeat(depth)),
+        3 => format!("'t = {}'int{}", "('bin | ".repeat(depth), ")".repeat(depth)),
+        4 => format!("{}1", "@{ ".repeat(depth)),
+        _ => format!("{}1", "! [".repeat(depth)),
+    }
+}
+
+/// Numbers at and beyond the machine-integer boundaries, as decimal text.
+pub fn big_number(r: &mut Rng) -> String {
+    match r.below(14) {
+        0 => "18446744073709551615".into(),                 // usize::MAX
+        1 => "18446744073709551616".into(),                 // usize::MAX + 1
+        2 => "9223372036854775807".into(),                  // isize::MAX
+        3 => "9223372036854775808".into(),
+        4 => "4294967295".into(),
+        5 => "4294967296".into(),
+        6 => "340282366920938463463374607431768211456".into(), // 2^128
+        7 => "9".repeat(1 + r.usize(60)),
+        8 => "0".repeat(1 + r.usize(40)),
+        9 => format!("{}1", "0".repeat(r.usize(30))),
+        10 => "99999999999999999999999999".into(),
+        11 => "2147483648".into(),
+        12 => "65536".into(),
+        _ => "1".repeat(200 + r.usize(2000)),
+    }
+}
+
+/// G6 — a huge number in every numeric position of the grammar (accessor indices, `$N`, tuple
+/// indices, select timeouts, process references, integer / decimal / fraction / hex literals and
+/// patterns, type cycles), or in place of a numeric token of a corpus program.
+pub fn numeric(r: &mut Rng, base: &str) -> (String, &'static str) {
+    let n = big_number(r);
+    let m = big_number(r);
+    match r.below(22) {
+        0 => (format!("$.{n}"), "accessor"),
+        1 => (format!("${n}"), "param-index"),
+        2 => (format!("x.{n}.{m}"), "accessor"),
+        3 => (format!("~.{n}"), "accessor"),
+        4 => (format!("%num.{n}"), "accessor"),
+        5 => (format!("!{n}"), "select-timeout"),
+        6 => (format!("! [{n}, p]"), "select-timeout"),
+        7 => (format!("@{n}"), "process-ref"),
+        8 => (format!("!@{n}"), "process-ref"),
+        9 => (format!("{n}"), "integer"),
+        10 => (format!("-{n}"), "integer"),
+        11 => (format!("{n}.{m}"), "decimal"),
+        12 => (format!("{n}/{m}"), "fraction"),
+        13 => (format!("-{n}/{m}"), "fraction"),
+        14 => (format!("0x{}", if n.len() % 2 == 0 { n.clone() } else { format!("0{n}") }), "hex"),
+        15 => (format!("x ~> ={n}"), "pattern-integer"),
+        16 => (format!("x ~> ={n}.{m}"), "pattern-decimal"),
+        17 => (format!("x ~> ={n}/{m}"), "pattern-fraction"),
+        18 => (format!("'t = [^{n}]"), "type-cycle"),
+        19 => (format!("#{{ $.{n} }}"), "accessor"),
+        20 => (format!("&x.{n}"), "accessor"),
+        _ => {
+            // replace one numeric token of a corpus program
+            let mut ts = tokens(base);
+            let idx: Vec<usize> = ts.iter().enumerate().filter(|(_, t)| !t.is_empty() && t.chars().all(|c| c.is_ascii_digit())).map(|(i, _)| i).collect();
+            if idx.is_empty() {
+                return (format!("[{n}, {m}]"), "integer");
+            }
+            let k = idx[r.usize(idx.len())];
+            ts[k] = n;
+            (ts.concat(), "corpus-number")
+        }
     }
 }
